@@ -95,8 +95,8 @@ func subject(c core.Case) (string, bool) {
 	return unhx(t[3])
 }
 
-// isLarge: header `@ C17 L <hex>` (large stream; the oracle answers `skip` where it has no
-// linear-time evaluation, see lean/Golib/Model/C17.lean).
+// isLarge: header `@ C17 L <hex>` (large stream; the oracle evaluates it with linear-time
+// evaluators proved equal to the cursor models, see lean/Golib/Model/C17.lean).
 func isLarge(c core.Case) bool {
 	t := core.Toks(c.Lines[0])
 	return len(t) == 4 && t[2] == "L"
@@ -111,25 +111,6 @@ func isASCII(s string) bool {
 	return true
 }
 
-// largeSkip mirrors the oracle's `skip` conditions for a large subject.
-func largeSkip(s string, t []string) bool {
-	neg := func(x string, min int) bool { v, err := strconv.Atoi(x); return err != nil || v < min }
-	switch t[0] {
-	case "sub":
-		return len(t) != 3 || !utf8.ValidString(s) || neg(t[1], 0) || neg(t[2], -1)
-	case "mask":
-		if len(t) != 4 {
-			return true
-		}
-		m, ok := unhx(t[1])
-		return !ok || !utf8.ValidString(s) || !utf8.ValidString(m) || neg(t[2], 0) || neg(t[3], 0)
-	case "rev", "remove":
-		return !utf8.ValidString(s)
-	case "s2c", "c2s", "round":
-		return !isASCII(s)
-	}
-	return false
-}
 
 func mk(s string, ops ...string) core.Case {
 	return core.Case{Lines: append([]string{"@ C17 s " + hx(s)}, ops...), Tag: "corpus"}
@@ -805,15 +786,6 @@ func implHist(c core.Case) []string {
 		}
 		before := strings.Clone(s)
 		o := core.Guard(func() string { return callL(led, s, t) })
-		if len(s) > 512 && o != "panic" && o != "bad-op" && o != "panic-recovered" {
-			tt := t
-			if t[0] == "removepanic" {
-				tt = []string{"remove", t[1]}
-			}
-			if largeSkip(s, tt) {
-				o = "skip"
-			}
-		}
 		if s != before {
 			o = "input-modified"
 		}
@@ -842,7 +814,6 @@ func impl(c core.Case) []string {
 	}
 	before := strings.Clone(s)
 	out = append(out, "ok")
-	large := isLarge(c)
 	led := &ledger{}
 	for _, l := range c.Lines[1:] {
 		t := core.Toks(l)
@@ -851,9 +822,6 @@ func impl(c core.Case) []string {
 			if j := led.changed(); j >= 0 {
 				o = fmt.Sprintf("ledger-changed %d", j)
 			}
-		}
-		if large && o != "panic" && o != "bad-op" && len(t) > 0 && largeSkip(s, t) && !strings.HasPrefix(o, "ledger-changed") {
-			o = "skip" // the call was made (no panic); the result is outside the oracle's linear evaluation
 		}
 		out = append(out, o)
 	}
